@@ -25,8 +25,18 @@ pub fn attribute(v: &Viol, lying: bool) -> Vec<&'static str> {
         }
     };
     match v.rule.as_str() {
-        "use-of-nonlive" | "double-destruction" | "two-places" | "no-place" | "not-destroyed-once" | "yields-nonlive" | "yields-twice" | "panic-in-final-drop" => ctx(vec!["C02"]),
+        // a leak is never a C04 violation (the property tolerates leaks): one that shows up in an
+        // operation no injected panic interrupted is an ordinary ownership defect
+        "no-place" | "not-destroyed-once" => {
+            if lying {
+                vec!["C17"]
+            } else {
+                vec!["C02"]
+            }
+        }
+        "use-of-nonlive" | "double-destruction" | "two-places" | "yields-nonlive" | "yields-twice" | "panic-in-final-drop" => ctx(vec!["C02"]),
         "len-vs-iteration" => ctx(vec!["C05"]),
+        "unusable-after" => ctx(vec!["C05", "C03"]),
         "capacity-drift" => ctx(vec!["C05", "C03"]),
         "duplicate-key" | "lookup-mismatch" => {
             if v.after_fault {
@@ -114,6 +124,7 @@ pub fn profile(prop: &str) -> Profile {
             let mut p = Profile::base(boost(uniform(&[Serde, WithCap, Relocate]), &[Clone, SClone, Retain, SRetain, Clear, SClear, Drain, Consume, FromIter, SFromIter, SExtend, SSub, DropNew, Entry], 25));
             p.max_ops = 12;
             p.src_tricks = true;
+            p.bad_hints = true;
             p
         }
         "C05" => Profile::base(boost(uniform(&[Serde]), &[Overflow, Fill, WithCap, Disjoint, Lookup, Mutate, Remove, Retain, Entry, SInsert, SRemove], 25)),
@@ -138,6 +149,8 @@ pub fn profile(prop: &str) -> Profile {
             let mut p = Profile::base(boost(uniform(&[Serde, Unchecked, Fmt, FmtIter, WithCap]), &[Disjoint, Entry, SInsert, Retain, SRel, Eq, SEq, Remove, Insert, InsertKv, Checked], 25));
             p.lies = true;
             p.forget = true;
+            p.src_tricks = true;
+            p.bad_hints = true;
             p
         }
         "C19" => {
